@@ -227,6 +227,47 @@ def r2(cx):
         cx.check(not somes, "a pending delete hides the key (tombstone arm never returns a value)", "ws-tombstone-visible", c.where())
 
 
+@rule("C08", "C08.R7", "history: a pending hard delete hides the key whatever the history options are")
+def r7(cx):
+    """`history` overlays the write-set: a key whose latest pending entry is a hard delete must be registered (so that the
+    snapshot versions of that key are suppressed) before any option-dependent filter (timestamp range, tombstone flag,
+    limit) can skip the entry.  Decided on the per-key loop body of history_with_options: from the `Some(entry)` edge of
+    `entry_list.last()` every path to the next iteration passes `is_hard_delete()`, and its true edge always registers the key."""
+    f = cx.f
+    b = f.body("Transaction::history_with_options")
+    nx = [c for c in b.calls if c.bb in b.live and c.primary.endswith("Iterator>::next") and "btree_map::Range" in c.primary]
+    cx.floor("write-set range loop in history", len(nx), 1)
+    last = [c for c in sites(cx, b, "core::slice::last") if c.bb in b.reachable_after([nx[0].bb])]
+    hd = sites(cx, b, "Entry::is_hard_delete")
+    ins = [c for c in b.calls if c.bb in b.live and c.primary.endswith("HashSet::insert")]
+    cx.floor("hard-delete registrations in history", len(ins), 1)
+    leave = {c.bb for c in nx} | {x for x, k in exits(b)}
+    for l in last:
+        e, sw = option_edges(b, l.dest[0], l.target)
+        if e is None:
+            raise AnchorMissing("history: entry_list.last() is not matched")
+        some = [s_ for s_, lab in e.items() if lab == frozenset({"1"})]
+        r = b.reachable_from(some, avoid={c.bb for c in hd})
+        bad = sorted(x for x in leave if x in r and x not in {c.bb for c in hd})
+        cx.check(not bad, "every pending entry is classified by is_hard_delete() before any filter can skip it", "history-filter-before-hard-delete", l.where(),
+                 "history_with_options can skip a write-set entry (timestamp range / option filter) before testing is_hard_delete(): a key this transaction "
+                 "has hard-deleted is not registered, and the history scan returns its committed versions although get/range of the same transaction hide it")
+    for c in hd:
+        e, sw = bool_edges(b, c.dest[0], c.target)
+        if e is None:
+            raise AnchorMissing("history: is_hard_delete() result unused")
+        tr = [s_ for s_, lab in e.items() if lab == frozenset({True})]
+        r = b.reachable_from(tr, avoid={x.bb for x in ins})
+        bad = sorted(x for x in leave if x in r and x not in {x.bb for x in ins})
+        cx.check(bool(tr) and not bad, "a pending hard delete is always registered in hard_delete_keys", "history-hard-delete-unregistered", c.where(),
+                 "history_with_options can see a pending hard delete and continue without registering the key")
+    # the registered set reaches the iterator
+    ctor = sites(cx, b, "TransactionHistoryIterator::new")
+    for c in ctor:
+        reg = any(any(x in ins for x in origin_of_operand(b, a).calls) or "HashSet" in (b.local_ty(a[1][0]) if a[0] in ("c", "m") else "") for a in c.args)
+        cx.check(reg, "the hard-delete set is handed to the overlay iterator", "history-hard-delete-set-dropped", c.where())
+
+
 def _returns_some_value(b, x):
     for st in b.blocks[x]["s"]:
         if st[0] == "=" and st[1] == [0] and st[2][0] == "agg":
